@@ -494,3 +494,24 @@ def poknames(tier, seed, ci, nc):
 
 STREAMS.update({'bindcall': bindcall, 'callsig': callsig, 'makeup': makeup, 'pok': pok, 'pokm': pokm,
                 'poknames': poknames})
+
+
+# ----------------------------------------------------------------------------- functools.partial (C19)
+def partial_(tier, seed, ci, nc):
+    """real functools.partial objects: U x (count, names) bindings; names in every order, incl. foreign
+    and positional-only names"""
+    univ = U('abc', 2) if tier == 'quick' else U('abc', 3)
+
+    def gen():
+        for ps in univ:
+            ps = _dist_defaults(ps)
+            npos = sum(1 for p in ps if p[1] in ('po', 'pk'))
+            for n in range(npos + 2):
+                for nm in mask_names_space(ps, include_po=True):
+                    if len(nm) > (2 if tier == 'quick' else 3):
+                        continue
+                    yield ('partialsig', n, tuple((k, 5 + i) for i, k in enumerate(nm)), ps)
+    return _slice(gen(), ci, nc)
+
+
+STREAMS['partial'] = partial_
